@@ -532,3 +532,23 @@ def c10g(ctx):
 
 def _is_last_test(g, s, var):
     return True
+
+
+@rule('C10.h', floor=2)
+def c10h(ctx):
+    """the clip mask is positioned with the geometry that was rendered: size and bbox given to the merger belong to the same
+    query object that was handed to the renderer"""
+    fn = ctx.fn(WMS + ':WMSServer.map')
+    mg = [x for x in fn.walk() if is_call(x, 'merger.merge')]
+    rn = [x for x in fn.walk() if is_call(x, 'LayerRenderer')]
+    ok = bool(mg) and bool(rn)
+    if ok:
+        q = unparse(rn[0].args[1])
+        size, bbox = keyword(mg[0], 'size'), keyword(mg[0], 'bbox')
+        ok = size is not None and bbox is not None and unparse(size) == q + '.size' and unparse(bbox) == q + '.bbox'
+    ctx.check(ok, 'WMSServer.map:mask-geometry-of-rendered-query', 'merger.merge(size=q.size, bbox=q.bbox) with q the query given to the renderer', fn,
+              fail='the merger (and its clip mask) is given a size/bbox that does not belong to the rendered (extent-limited) query: the '
+                   'authorization mask is shifted against the image')
+    srs = keyword(mg[0], 'bbox_srs') if mg else None
+    ok = srs is not None and unparse(srs) in ('params.srs', 'query.srs', 'query.srs.srs_code')
+    ctx.check(ok, 'WMSServer.map:mask-srs', 'the mask SRS is the request/query SRS', fn)
